@@ -1,0 +1,13 @@
+//go:build verif
+
+package partregistry
+
+// Contracts checked by /verif/gocv (comment-only file; see /verif/DESIGN.md §3).
+
+// C08 / C14. One registry reference per part ROW: a part id that occurs k times in a list stands for k rows and gets k
+// references (ghost scenario; bounded random search - the function ranges over a Go map, outside the modelled subset).
+//@ func verifRefsCountEveryOccurrence
+//@ property C08 C14
+//@ mode nosafety
+//@ bounded 2000
+//@ ensures[C08:one-reference-per-listed-occurrence] result
